@@ -35,7 +35,8 @@ theorem T16_walker_diff_names_changes_partial (hs : H.Sound) (ps : PageSet Node)
     have := pathsIn_of_psok ps hps s hs' x hx hne
     exact ⟨Or.inl this.1, Or.inl this.2⟩
   obtain ⟨w', hw', hinv⟩ := runInv_run H ps hs hS hS' hrepR (Or.inl (Or.inl rfl)) steps [] _ _
-    (by simpa using hso) (by simpa using hps) (by simpa using hDp) (runInv_start H ps _ root S S' steps inhibit)
+    (by simpa using hso) (by simpa using hps) (by simpa using hDp) (by intro P0 hp; cases hp)
+    (runInv_start H ps _ none root S S' steps inhibit)
   simp only [List.nil_append] at hinv
   obtain ⟨pages, hc, hp⟩ := conclude_spec H ps hs hS hS' hso hrepR (Or.inl (Or.inl rfl)) hinv
   refine ⟨w', _, pages, hw', hc, ?_⟩
